@@ -241,12 +241,6 @@ func evalOrderGuard(p *N) string {
 			g = "C01-compound-index-evaluated-twice"
 		case x.K == "param" && len(x.C) == 1 && x.C[0].K == "nil":
 			g = "C01-nil-default-ignored"
-		case x.K == "set":
-			for _, it := range x.C {
-				if it.K == "list" || it.K == "set" || it.K == "map" || it.K == "func" {
-					g = "C01-set-literal-unhashable-item-not-raised"
-				}
-			}
 		case x.K == "for3" || x.K == "forcond" || x.K == "forever" || x.K == "forrange" || x.K == "forin":
 			// a function literal in the loop body that uses a variable declared in that body (and may outlive the iteration)
 			body := x.C[len(x.C)-1]
@@ -646,7 +640,7 @@ func c01DirectedErrors() []*N {
 		// strings: index and slice by rune
 		mk(nVar("s", nStr("héllo")), nExpr(n("list", n("index", nId("s"), nInt(1)), n("index", nId("s"), nInt(-1)), n("slice", nId("s"), nInt(1), nInt(3)), n("slice", nId("s"), n("none"), nInt(2)), n("slice", nId("s"), nInt(3), n("none")),
 			nCall(nId("len"), nId("s")), nTry(nThunk(nExpr(n("index", nId("s"), nInt(9)))), nInt(-1)), nTry(nThunk(nExpr(n("index", nId("s"), nStr("a")))), nInt(-2)), nTry(nThunk(nExpr(n("slice", nId("s"), nInt(4), nInt(2)))), nInt(-3))))),
-		// known deviation: a set literal with an unhashable item evaluates to an error VALUE; nothing is raised
+		// a set literal with an unhashable item raises a type error (repaired in /repo: it used to evaluate to an error VALUE)
 		mk(nVar("u", n("set", n("list", nInt(1)), nInt(2))), nPrint(nStr("still running")), nExpr(n("list", nId("u")))),
 		// known deviation: a variable declared in a loop body is one slot for all iterations
 		mk(nVar("fs", n("list")), n("for3", nVar("i", nInt(0)), nInfix("<", nId("i"), nInt(3)), ns("postfix", "i ++"),
